@@ -133,6 +133,8 @@ def _variant_verdict(job):
         try:
             model = engine.repo_model(tmp)
             importlib.import_module(f'sa.rules.{pid.lower()}').check(sub, model, 'quick')
+            shared_clauses(sub, model, pid, 'quick')
+            engine.report_pyerrors(sub)
         except Exception as e:
             return patch, {'applies': True, 'error': f'{type(e).__name__}: {e}'}
         known = {k['key'] for k in sub.known['finding'] if k['property'] == pid and k['key']}      # listed findings are not alarms of the variant
